@@ -419,6 +419,10 @@ inline bool dec_payload(const Sch& s, uint8_t p, Dec& d, Val& out) {
       if (!d.need(n)) return false;
       out.raw.assign(reinterpret_cast<const char*>(d.p + d.pos), n);
       d.pos += n;
+      // R10: the elements of a bool array are bools: F (0x00) or T (0x01) only (R1 applied element-wise)
+      if (s.boolelem)
+        for (unsigned char c : out.raw)
+          if (c > 1) return d.fail(Cat::Prefix);
       return true;
     }
     case K::AryVec: case K::AryLB: {
